@@ -132,13 +132,22 @@ VARIANT_ATTRS = {'refchain': {'A': [('B_A_Id', 'unique_id', 'ref')]}}
 HOST_VARIANTS += ('handles',)
 VARIANT_ATTRS['handles'] = {
     'A': [('length', 'real', 'base'), ('Length', 'string', 'base'), ('sender', 'boolean', 'base'), ('Peer', 'inst_ref<A>', 'base'),
-          ('Mate', 'inst_ref<B>', 'base'), ('Via', 'inst_ref<C>', 'base'), ('Peers', 'inst_ref<A>', 'base'), ('Nums', 'integer', 'base')],
+          ('Mate', 'inst_ref<B>', 'base'), ('Via', 'inst_ref<C>', 'base'), ('Peers', 'inst_ref<A>', 'base'), ('Nums', 'integer', 'base'),
+          ('Info', 'Rec', 'base')],
     'B': [('length', 'Label', 'base'), ('Owner', 'inst_ref<A>', 'base')],
     'C': [('length', 'integer', 'base')],
 }
 # parameters a host variant appends to the callable of a home: variant -> home -> [(name, type)]
-VARIANT_PARAMS = {'handles': dict((home, [('h', 'inst_ref<A>'), ('hb', 'inst_ref<B>'), ('hs', 'inst_ref<A>'), ('ns', 'integer')])
+VARIANT_PARAMS = {'handles': dict((home, [('h', 'inst_ref<A>'), ('hb', 'inst_ref<B>'), ('hs', 'inst_ref<A>'), ('ns', 'integer'), ('rec', 'Rec')])
                                   for home in ('function', 'bridge', 'operation'))}
+# structured data types (S_SDT) a host variant declares: variant -> [(name, [(member, type)])].  Rec has a member named `length`
+# and one that holds an instance handle (another kind of expression in front of ".<name>")
+VARIANT_STRUCTS = {'handles': [('Rec', [('length', 'real'), ('who', 'inst_ref<A>'), ('count', 'integer')])]}
+
+
+def struct_members(variant, t):
+    '''[(member, type)] of the structured data type named t in the host of the variant, else None.'''
+    return dict(VARIANT_STRUCTS.get(variant, ())).get(t)
 # array dimensions (element counts) of attributes and parameters: variant -> ('attr', class, name) | ('param', name) -> [counts]
 VARIANT_DIMS = {'handles': {('attr', 'A', 'Peers'): [3], ('attr', 'A', 'Nums'): [4], ('param', 'hs'): [2], ('param', 'ns'): [5]}}
 
@@ -158,7 +167,7 @@ def handle_kind(h):
     element-of-<kind> (kinds nest: element-of-attribute-of-parameter).'''
     cls = h['cls']
     if cls == 'FieldAccessNode':
-        return 'attribute-of-' + handle_kind(h['fields']['handle'])
+        return ('member-of-' if h.get('vkind') == 'V_MVL' else 'attribute-of-') + handle_kind(h['fields']['handle'])
     if cls == 'IndexAccessNode':
         return 'element-of-' + handle_kind(h['fields']['handle'])
     return {'VariableAccessNode': 'variable', 'SelfAccessNode': 'self', 'SelectedAccessNode': 'selected',
@@ -302,6 +311,20 @@ def build_host(m, variant=None):
                 rel(s_irdt, o_obj, 123)
                 if own:
                     host.types[s_dt.Name] = s_dt
+        # -- structured data types of the variant (declared behind the classes: a member may hold an instance handle) ---------
+        for sname, members in (VARIANT_STRUCTS.get(variant, []) if own else []):
+            s_dt = m.new('S_DT', Name=sname)
+            pe(s_dt, 3)
+            s_sdt = m.new('S_SDT')
+            rel(s_sdt, s_dt, 17)
+            prev = None
+            for mname, mty in members:
+                s_mbr = m.new('S_MBR', Name=mname)
+                rel(s_mbr, s_sdt, 44)
+                rel(s_mbr, dt(mty), 45)
+                if prev is not None:
+                    rel(prev, s_mbr, 46, 'precedes')
+                prev = s_mbr
         for kl in sorted(CLASSES):
             prev = None
             for name, ty, kind in class_attrs(kl, variant):
@@ -660,6 +683,8 @@ class Analysis(object):
             # an attribute of the instance ANY handle expression yields (selected has no place on the left)
             ta, da = self.hx(l, scope)
             attr = l.get('attr')
+            if l.get('claim') == 'member' and not da and 'parameter' not in handle_kind(l) and not handle_kind(l).endswith('selected'):
+                attr = (None, self.f(l, 'name'), ta, 'base')         # a member of a structure held by a transient or an attribute
             if da or attr is None or handle_kind(l).endswith('selected'):
                 raise IllFormed('not an attribute of an instance')
             ok = attr[3] == 'base' and attr[1] != 'Id' or \
@@ -1021,6 +1046,14 @@ class Analysis(object):
                 e['vkind'] = 'V_ALV'
                 self.features.add('array-length:' + handle_kind(h))
                 t = 'integer'
+            elif struct_members(self.variant, th) is not None:
+                mbr = [x for x in struct_members(self.variant, th) if x[0] == name]
+                if not mbr:
+                    raise IllFormed('unknown member')
+                e['claim'] = 'member'
+                e['vkind'] = 'V_MVL'
+                self.features.add('member-of:%s:%s' % (handle_kind(h), name if name in SPECIAL_ATTRIBUTE_NAMES else 'other'))
+                t = mbr[0][1]
             else:
                 k = class_of(th)
                 if not k or k[1]:
@@ -2858,7 +2891,7 @@ class Walk(object):
             if claim == 'array-length':
                 self.sub.count('array_length:' + handle_kind(e['fields']['handle']))
             elif e['fields']['name'] in SPECIAL_ATTRIBUTE_NAMES:
-                self.sub.count('special_attribute:' + handle_kind(e['fields']['handle']))
+                self.sub.count(('special_member:' if claim == 'member' else 'special_attribute:') + handle_kind(e['fields']['handle']))
         if claim:
             want = e['t']
             if claim == 'variable' and var is not None and not var.claimed:
@@ -2877,7 +2910,7 @@ class Walk(object):
         elif cls == 'SelfAccessNode':
             self.var_ref(None, self.nav1(x, 'V_VAR', 808))
         elif cls == 'FieldAccessNode':
-            self.value(f['handle'], self.nav1(x, 'V_VAL', 840 if kind == 'V_ALV' else 807))
+            self.value(f['handle'], self.nav1(x, 'V_VAL', {'V_ALV': 840, 'V_MVL': 837}.get(kind, 807)))
         elif cls == 'IndexAccessNode':
             self.value(f['handle'], self.nav1(x, 'V_VAL', 838))
             self.value(f['expression'], self.nav1(x, 'V_VAL', 839))
